@@ -41,6 +41,9 @@ CLAIMED = {
     "C13": ("exploration",
             "Sequential overlay histories on parent-child chains refined against a map-with-fall-through model; seeded schedules of 2-5 clients mixing locked read-modify-write sections with plain reads/writes on one data scope, the recorded history (a section is one operation, stamped with a global event counter) checked for linearizability against a sequential map with porcupine; N concurrent callers of the three get-or-create services must obtain one instance; happens-before probe on the data maps.",
             "Sampling; histories <= 14 operations so the linearizability check stays tractable (timeouts are counted, never reported)."),
+    "C14": ("exploration",
+            "A complete application (mockup app, bootstrap with terminal, common, container and pipeline modules on memfs) is assembled inside the simulation; generated task DAGs (wait lists incl. unknown names, failing commands, nested pip:run, lock maps, simulated durations) are handed to the real Runner.Run by 1-2 submitters with gaps, each submission in its own child scope (isolated or shared context); probe commands log events; oracle over the event log: start after every prerequisite (and its nested tasks) finished, no body after a failed prerequisite and the task ends failed, body events are a prefix of the script ending at the first failing command, unknown wait names rejected, TasksManager.Wait returns (deadlock detector + fair tail) with an error iff some task failed, write-locked resources never overlap.",
+            "Sampling of DAGs and schedules. Exact per-task outcomes are judged with isolated contexts only (with a shared context a failing task cancels its siblings)."),
     "C15": ("exploration",
             "Seeded schedules of 2-6 holders with random lock maps (any read/write mix incl. empty and full) over 4 resource names on the real SharedMutex; interval exclusion checked at every entry; a deterministic independence probe (holder A parked inside, a compatible holder B must enter); any cycle of waiters is reported by the simulator's deadlock detector; the order in which a lock map is walked is a seeded choice.",
             "Sampling. simrt.RWMutex follows Go's writer-preference algorithm, so lock-order and read-recursion deadlocks are detectable."),
